@@ -536,7 +536,7 @@ func (en *Engine) runUntilBranch(st *State) ([]*State, *Terminal, error) {
 				}
 			}
 		case *ssa.MakeInterface:
-			fr.env[x] = mkIface(en.eval(st, fr, x.X), x.Type())
+			fr.env[x] = mkIface(en.eval(st, fr, x.X), x.Type(), x.X.Type())
 		case *ssa.ChangeType:
 			fr.env[x] = en.eval(st, fr, x.X)
 		case *ssa.ChangeInterface:
@@ -553,7 +553,7 @@ func (en *Engine) runUntilBranch(st *State) ([]*State, *Terminal, error) {
 				// dynamic type statically known
 				if _, isIface := x.AssertedType.Underlying().(*types.Interface); !isIface {
 					tt := x.Type().(*types.Tuple)
-					if types.Identical(mi.X.Type(), x.AssertedType) {
+					if types.Identical(mi.Dyn, x.AssertedType) {
 						fr.env[x] = mkTuple([]Val{mi.X, boolV(true)})
 					} else {
 						fr.env[x] = mkTuple([]Val{zeroOf(tt.At(0).Type()), boolV(false)})
